@@ -48,7 +48,7 @@ class C19(PropBase):
             hists.append(lines)
         if tier == "thorough":
             for fn in ("squitters.txt", "sbs2.txt", "raw1.txt"):
-                hists.append(open("/repo/rec/" + fn, "rb").read().split(b"\n")[:3000])
+                hists.append(open(os.path.join(core.REPO, "rec", fn), "rb").read().split(b"\n")[:3000])
         for hi, lines in enumerate(hists):
             base = dict(use_update=bool(hi % 2), relaxed=bool(hi % 3 == 0), delete_after=600, observer="52.66,-8.62")
             ops = ["reset", gen.cfg_op(**base), "case base"] + gen.seg(lines) + ["dump"]
